@@ -655,7 +655,8 @@ class C02(Check):
                             continue
                         fields['f%02d_%d' % (i, j)] = [
                             spec_entry(kind, enc, prec)]
-                self.batch(R, col, ser, fields, eps, None, {'eps': eps})
+                self.batch(R, col, ser, fields, eps, None, {'eps': eps},
+                           agg=(eps == 0))
         elif kind == 'type':
             for tc in ('strict', 'sloppy', None):
                 fields = OrderedDict(('f%02d' % i, [spec_entry(kind, enc)])
@@ -666,11 +667,12 @@ class C02(Check):
                                  for i, enc in enumerate(vals))
             self.batch(R, col, ser, fields, 0, None, {})
 
-    def batch(self, R, col, ser, fields, eps, tc, sub):
+    def batch(self, R, col, ser, fields, eps, tc, sub, agg=True):
         names = list(fields)
         got = run_and_judge(self.D, R, [col] * len(names), names, fields, eps,
                             tc, None, dict(sub, batch=True),
-                            series=[ser] * len(names), on_exc='return')
+                            series=[ser] * len(names), on_exc='return',
+                            agg=agg)
         if got == 'EXC':
             # some field made the whole call raise: judge them one by one
             for n in names:
